@@ -2,6 +2,7 @@
 //! encoding-override independence), search against the specification model, replay.
 use std::borrow::Cow;
 use url::Url;
+use verif_harness::specapi::*;
 use verif_harness::urlrec::*;
 use verif_harness::*;
 
@@ -172,11 +173,135 @@ fn run_corr(args: &Args) -> Report {
     cx.rep
 }
 
+// ---------------------------------------------------------------- the Standard as reference
+/// text of the input as the parser sees it: C0/space trimmed, tab/LF/CR removed
+fn cleaned(input: &str) -> Vec<char> {
+    input.trim_matches(|c: char| c <= ' ').chars().filter(|c| !matches!(c, '\t' | '\n' | '\r')).collect()
+}
+fn leading_scheme(t: &[char]) -> Option<String> {
+    if t.first().map_or(false, |c| c.is_ascii_alphabetic()) {
+        let mut s = String::new();
+        for &c in t {
+            if c.is_ascii_alphanumeric() || c == '+' || c == '-' || c == '.' {
+                s.push(c.to_ascii_lowercase());
+            } else if c == ':' {
+                return Some(s);
+            } else {
+                return None;
+            }
+        }
+    }
+    None
+}
+fn is_special_scheme(s: &str) -> bool {
+    matches!(s, "http" | "https" | "ws" | "wss" | "ftp" | "file")
+}
+fn has_drive_segment(t: &[char]) -> bool {
+    let is_end = |c: char| matches!(c, '/' | '\\' | '?' | '#');
+    (0..t.len()).any(|i| {
+        t[i].is_ascii_alphabetic()
+            && i + 1 < t.len()
+            && (t[i + 1] == ':' || t[i + 1] == '|')
+            && (i == 0 || is_end(t[i - 1]) || t[i - 1] == ':')
+            && (i + 2 == t.len() || is_end(t[i + 2]))
+    })
+}
+
+/// Known_C01: classes of (base, input) on which the pinned code is known to deviate from the Standard
+/// (DESIGN.md section 9); deliberately broad, by mechanism.  None = not known.
+fn known_c01(base: Option<&Url>, input: &str) -> Option<&'static str> {
+    let t = cleaned(input);
+    let sch = leading_scheme(&t);
+    let eff = sch.clone().or_else(|| base.map(|b| b.scheme().to_string()));
+    let eff = eff.as_deref().unwrap_or("");
+    if eff == "file" || base.map_or(false, |b| b.scheme() == "file") && sch.is_none() {
+        return Some("K1-file-scheme");
+    }
+    let base_path: Vec<char> = base.map(|b| b.path().chars().collect()).unwrap_or_default();
+    if has_drive_segment(&t) || has_drive_segment(&base_path) {
+        return Some("K2-drive-letter-shaped-segment");
+    }
+    if !is_special_scheme(eff) && t.contains(&'\\') {
+        return Some("K3-backslash-in-non-special");
+    }
+    if t.windows(2).any(|w| w == [':', '@']) {
+        return Some("K4-colon-at");
+    }
+    None
+}
+
+fn spec_vs_impl(cx: &mut Ctx, drv2: &mut Driver, stream: &str, base: Option<(&str, &Url)>, input: &str) {
+    let req = format!("parse {} {}", base.map(|b| hexs(b.0)).unwrap_or_else(|| "~".into()), hexs(input));
+    let ans = drv2.ask_with(&req, spec_oracle);
+    let spec = match decode_answer(&ans) {
+        Ok(v) => v.join(" | "),
+        Err(k) => k,
+    };
+    let imp = match std::panic::catch_unwind(std::panic::AssertUnwindSafe(|| Url::options().base_url(base.map(|b| b.1)).parse(input))) {
+        Ok(Ok(u)) => impl_api(&u).join(" | "),
+        Ok(Err(_)) => "fail".to_string(),
+        Err(_) => "panic".to_string(),
+    };
+    let human = format!("{}   [input {:?} base {:?}]", req, input, base.map(|b| b.0));
+    if spec == imp {
+        cx.rep.case(stream, &human, &spec, &imp, !input.is_empty(), if spec == "fail" { "std:fail" } else { "std:ok" });
+    } else if let Some(k) = known_c01(base.map(|b| b.1), input) {
+        cx.rep.evaluations += 1;
+        cx.rep.bump(&format!("known-divergence:{}", k));
+    } else {
+        cx.rep.case(stream, &human, &spec, &imp, true, "std:DIVERGES");
+    }
+}
+
+/// the Standard side of the check: WPT validation of the specification model (no exception list) and
+/// the fixed-seed differential run of the implementation against it outside Known_C01
+fn run_standard(cx: &mut Ctx, args: &Args) {
+    if args.driver2.is_empty() {
+        return;
+    }
+    let mut drv2 = Driver::spawn(&args.driver2);
+    wpt_validation(&mut drv2, &mut cx.rep, "parse");
+    let pool = base_pool();
+    let bases: Vec<Url> = pool.iter().map(|s| Url::parse(s).expect("base")).collect();
+    // WPT vectors: implementation vs specification model
+    if let Ok(txt) = std::fs::read_to_string("/repo/url/tests/urltestdata.json") {
+        if let Ok(serde_json::Value::Array(a)) = serde_json::from_str::<serde_json::Value>(&txt) {
+            for e in a.iter().filter(|e| e.is_object()) {
+                let input = e["input"].as_str().unwrap_or("");
+                let b = e["base"].as_str().and_then(|b| Url::parse(b).ok().map(|u| (b.to_string(), u)));
+                spec_vs_impl(cx, &mut drv2, "std-wpt", b.as_ref().map(|x| (x.0.as_str(), &x.1)), input);
+            }
+        }
+    }
+    // fixed seed: the verdict on an unchanged tree must not depend on VERIF_SEED
+    let mut rng = Rng::new(0xC01);
+    let n = if args.tier == "thorough" { 600_000 } else { 60_000 };
+    for i in 0..n {
+        let s = random_url_string(&mut rng);
+        let s = if i % 3 == 0 { mutate_string(&mut rng, &s) } else { s };
+        let bi = if rng.chance(1, 2) { None } else { Some(rng.below(bases.len())) };
+        spec_vs_impl(cx, &mut drv2, "std-differential", bi.map(|b| (pool[b], &bases[b])), &s);
+    }
+    let k = if args.tier == "thorough" { 3 } else { 2 };
+    for b in [None, Some(0usize), Some(9), Some(11)] {
+        for_all_strings(&URL_CLASS, k, |s| {
+            let st: String = s.iter().collect();
+            spec_vs_impl(cx, &mut drv2, "std-exh-class", b.map(|b| (pool[b], &bases[b])), &st);
+        });
+    }
+}
+
 fn main() {
     quiet_panics();
     let args = parse_args();
     let rep = match args.mode.as_str() {
         "corr" => run_corr(&args),
+        "std" => {
+            let dbg = if cfg!(debug_assertions) { "1" } else { "0" };
+            let mut cx = Ctx { drv: Driver::spawn(&args.driver), rep: Report::new(), dbg };
+            run_standard(&mut cx, &args);
+            cx.rep
+        }
         m => panic!("unknown mode {}", m),
     };
     finish(&args, &rep);
